@@ -100,6 +100,14 @@ def main():
                 out.append(bspline.make_knots(int(p), 0.0, 1.0, int(n), mult=int(m)))
         return tuple(out)
 
+    def index_arg(sub, k):
+        """the same index pairs in different containers / dtypes / memory layouts"""
+        if k % 3 == 0:
+            return [tuple(x) for x in sub]
+        if k % 3 == 1:
+            return np.array(sub, dtype=np.int64).reshape(-1, 2)
+        return np.asfortranarray(np.array(sub, dtype=np.int32).reshape(-1, 2))     # F-ordered, 32-bit
+
     def all_pairs(M, N):
         return np.column_stack((np.repeat(np.arange(M, dtype=np.int64), N), np.tile(np.arange(N, dtype=np.int64), M)))
 
@@ -210,11 +218,14 @@ def main():
                 for k, sub in enumerate(case.get('subsets') or []):
                     key = 'subblocks%d' % k
                     try:
-                        Bs = asm.multi_blocks([tuple(x) for x in sub]) if k % 2 == 0 else asm.multi_blocks(np.array(sub, dtype=np.int64).reshape(-1, 2))
+                        Bs = asm.multi_blocks(index_arg(sub, k))
                         out_arr(res, key, Bs)
                         res['status'][key] = 'Ok'
                     except Exception as e:   # noqa
                         res['status'][key] = errclass(e) + ': ' + str(e)[:200]
+                # results returned earlier must not change when the assembler is used again
+                if res['status'].get('blocks_full') == 'Ok':
+                    out_arr(res, 'blocks_full_kept', B)
             else:
                 try:
                     # every entry of the M x N matrix, independent of any sparsity structure
@@ -229,11 +240,12 @@ def main():
                 for k, sub in enumerate(case.get('subsets') or []):
                     key = 'subentries%d' % k
                     try:
-                        Es = asm.multi_entries([tuple(x) for x in sub]) if k % 2 == 0 else asm.multi_entries(np.array(sub, dtype=np.int64).reshape(-1, 2))
+                        Es = asm.multi_entries(index_arg(sub, k))
                         out_arr(res, key, Es)
                         res['status'][key] = 'Ok'
                     except Exception as e:   # noqa
                         res['status'][key] = errclass(e) + ': ' + str(e)[:200]
+                out_arr(res, 'entries_full_kept', E)     # E was returned before the calls above
                 if case.get('single'):
                     out_arr(res, 'single', np.array([asm.entry(int(i), int(j)) for (i, j) in case['single']]))
                 # rows through nonzeros_for_rows
